@@ -287,7 +287,19 @@ impl KnownWord {
     #[must_use]
     pub fn sar(self, rhs: Self) -> Self {
         // We need the value to be signed to make it an arithmetic shift
-        let result = self.value_le_signed() >> rhs.value_le();
+        let value = self.value_le_signed();
+
+        // Shifting by the word size or more leaves only copies of the sign bit, and is not
+        // something the native shift can be asked to do
+        let result = if rhs.value_le() >= U256::from(256u32) {
+            if value.is_negative() {
+                I256::MINUS_ONE
+            } else {
+                I256::ZERO
+            }
+        } else {
+            value >> rhs.value_le()
+        };
 
         // We are already LE, but need to turn it back into the unsigned internal rep
         KnownWord::from_le_signed(result)
@@ -402,6 +414,12 @@ impl std::ops::Shl<KnownWord> for KnownWord {
 
     /// Computes the left shift of `self` by `rhs`.
     fn shl(self, rhs: KnownWord) -> Self::Output {
+        // Shifting by the word size or more shifts every bit out, and is not something the
+        // native shift can be asked to do
+        if rhs.value_le() >= U256::from(256u32) {
+            return KnownWord::zero();
+        }
+
         KnownWord::from_le(self.value_le() << rhs.value_le())
     }
 }
@@ -411,6 +429,12 @@ impl std::ops::Shr<KnownWord> for KnownWord {
 
     /// Computes the unsigned right shift of `self` by `rhs`.
     fn shr(self, rhs: KnownWord) -> Self::Output {
+        // Shifting by the word size or more shifts every bit out, and is not something the
+        // native shift can be asked to do
+        if rhs.value_le() >= U256::from(256u32) {
+            return KnownWord::zero();
+        }
+
         KnownWord::from_le(self.value_le() >> rhs.value_le())
     }
 }
